@@ -13,18 +13,24 @@ CS_CFG_C = "users=3,tokens=2,fee=5,taxnum=1,taxden=4,initstd=30,inittok=30,feenu
 CS_GEN_CFG = CS_BASE + ",initstd=20,inittok=20,feenum=3,feeden=10,uninum=2,uniden=10"
 
 CS_RND = T(
-    [dict(n=10, len=40, procs=5, cfg=CS_CFG_A), dict(n=10, len=40, procs=5, cfg=CS_CFG_B),
-     dict(n=10, len=40, procs=3, cfg=CS_CFG_C)],
+    [dict(n=10, len=40, procs=4, cfg=CS_CFG_A), dict(n=10, len=40, procs=4, cfg=CS_CFG_B),
+     dict(n=10, len=40, procs=2, cfg=CS_CFG_C)],
     [dict(n=60, len=40, procs=6, cfg=CS_CFG_A), dict(n=60, len=40, procs=6, cfg=CS_CFG_B),
      dict(n=60, len=40, procs=4, cfg=CS_CFG_C)])
-CS_GEN = T([dict(cfg="GEN_Coinswap.cfg", num=10, depth=13, seeds=8)],
+CS_GEN = T([dict(cfg="GEN_Coinswap.cfg", num=10, depth=13, seeds=6)],
            [dict(cfg="GEN_Coinswap.cfg", num=50, depth=16, seeds=14)])
 CS_SCN = [dict(file="scenarios/coinswap_F1.ndjson", cfg=CS_CFG_A + ",epilogue=0"),
           dict(file="scenarios/coinswap_zero_reserve.ndjson", cfg=CS_CFG_A + ",epilogue=0"),
-          dict(file="scenarios/coinswap_edges.ndjson", cfg=CS_CFG_A + ",epilogue=0")]
-CS_MC = T([dict(cfg="MC_Coinswap.cfg", timeout=900, heap="4g"), dict(cfg="MC_Coinswap2.cfg", timeout=900, heap="4g")],
-          [dict(cfg="MC_Coinswap_big.cfg", timeout=3000, heap="4g"),
-           dict(cfg="MC_Coinswap2_big.cfg", timeout=3000, heap="4g")])
+          dict(file="scenarios/coinswap_edges.ndjson", cfg=CS_CFG_A + ",epilogue=0"),
+          dict(file="scenarios/coinswap_pools.ndjson", cfg=CS_CFG_A + ",epilogue=0")]
+# quick: C01 runs the one-pool universe (every reachable (S, T, L): the arithmetic), C02 that and the
+# two-pool universe (all behaviours of <= 5 events with third-party, blocked and module recipients: the routing);
+# thorough: the larger versions of both for both properties
+CS_MC_A = dict(cfg="MC_Coinswap.cfg", timeout=900, heap="4g")
+CS_MC_B = dict(cfg="MC_Coinswap2.cfg", timeout=900, heap="4g")
+CS_MC_BIG = [dict(cfg="MC_Coinswap_big.cfg", timeout=3000, heap="4g"), dict(cfg="MC_Coinswap2_big.cfg", timeout=3000, heap="4g")]
+CS_MC_C01 = T([CS_MC_A], CS_MC_BIG)
+CS_MC_C02 = T([CS_MC_A, CS_MC_B], CS_MC_BIG)
 
 # histories recorded (VERIF_RECORD_DIR) for the cross-module checks C11 / C12
 RECORD = [dict(binary="coinswap", n=T(3, 12), len=30, cfg=CS_CFG_A)]
@@ -35,15 +41,16 @@ CS_ASSUME = ["TLC 1.8, SANY, CommunityModules Json", "Go toolchain, cosmos-sdk x
 
 PROPS = {
     "C01": ModuleCheck("coinswap", "Coinswap.tla", "CoinswapTrace.tla", "CoinswapTrace.cfg", CS_CLAUSES_C01,
-                       CS_MC, CS_GEN, CS_RND, scenarios=CS_SCN,
+                       CS_MC_C01, CS_GEN, CS_RND, scenarios=CS_SCN,
                        required=["sell_1", "buy_1", "sell_2", "buy_2", "add_create", "add_funded", "add_refund_empty",
                                  "remove_ok", "remove_all", "adduni_ok", "remuni_ok", "donate_ok", "reject"],
                        gen_cfg=CS_GEN_CFG, assumptions=CS_ASSUME),
     "C02": ModuleCheck("coinswap", "Coinswap.tla", "CoinswapTrace.tla", "CoinswapTrace.cfg", CS_CLAUSES_C02,
-                       CS_MC, CS_GEN, CS_RND, scenarios=CS_SCN,
+                       CS_MC_C02, CS_GEN, CS_RND, scenarios=CS_SCN,
                        required=["sell_1", "buy_1", "sell_2", "buy_2", "swap_third", "swap_third_2", "add_create",
                                  "add_funded", "remove_ok", "adduni_ok", "remuni_ok", "reject", "panic",
-                                 "deadline_edge", "deadline_rej", "bound_edge", "bound_rej", "blocked_rej"],
+                                 "deadline_edge", "deadline_rej", "bound_edge", "bound_rej", "blocked_rej",
+                                 "to_module", "sandwich", "route_skewed"],
                        gen_cfg=CS_GEN_CFG, assumptions=CS_ASSUME),
 }
 
@@ -73,7 +80,9 @@ TEXT = {
              "supplies change only for the message's own liquidity token and the burned share of the creation "
              "fee, conservation of every denom over the closed universe, rejected messages (including recovered "
              "panics) change nothing.",
-        note="As C01. Known finding F1 (routed orders with recipient != sender move the intermediate standard coin "
-             "from the sender to the recipient) is masked in the exhaustive configs by C02_Frame_ModF1, which still "
-             "requires every other cell unchanged and the two standard-coin deltas to cancel."),
+        note="As C01. Finding F1 (routed orders with recipient != sender moved the intermediate standard coin from the "
+             "sender to the recipient) was fixed in /repo (1430e57); the specification follows the fixed code and "
+             "C02_Frame is checked unmasked; scenarios/coinswap_F1.ndjson stays as a regression. Diagnostic clauses "
+             "X01_* / X02_* (pool life cycle, wedged pools, panics, routed balance, round trips, blocked accounts, "
+             "donations) are evaluated on every trace but never decide the verdict."),
 }
